@@ -4,6 +4,9 @@ go 1.24.2
 
 require github.com/xinchentechnote/fin-proto-go v0.0.0
 
-require golang.org/x/exp v0.0.0-20250620022241-b7579e27df2b
+require (
+	github.com/anishathalye/porcupine v1.3.0
+	golang.org/x/exp v0.0.0-20250620022241-b7579e27df2b
+)
 
 replace github.com/xinchentechnote/fin-proto-go => /repo
